@@ -458,11 +458,32 @@ def run(repo: Repo, ctx) -> None:
     ctx.ob('C04.R5', 'RenameObject._alter_begin:calls-super', ok,
            'rename does not continue with the generic alter (the name field '
            'update would not be applied)', ab.loc, sample='super()')
-    txt = norm(cn.node)
-    ok = 'for refdict in mcls.get_refdicts()' in txt and \
-        'quals[0] = str(self.new_name)' in txt and \
-        'module=self.new_name.module' in txt and \
-        'self.add(self.init_rename_branch(ref, new_ref_name' in txt
+    from .. import shapes as SH
+    from ..model import inline_locals
+    # every refdict child is renamed under the new parent name: a loop over
+    # get_refdicts(), inside it a rename branch per child whose new name is
+    # derived from self.new_name (qualifier and module), added to self
+    rd_loops = [n for n in ast.walk(cn.node) if isinstance(n, ast.For)
+                and 'get_refdicts()' in norm(n.iter)]
+    if not rd_loops:
+        raise AnalysisError('C04.R5: _canonicalize no longer iterates the '
+                            'refdicts of the metaclass')
+    branches = SH.calls_in(rd_loops[0].body, 'init_rename_branch')
+    ok = bool(branches)
+    for b in branches:
+        newname = inline_locals(cn.node, b.args[1]) if len(b.args) > 1 \
+            else ''
+        # the new child name mentions the new parent name twice: as module
+        # and (through the qualifier list) in the specialised name
+        quals_from_new = any(
+            isinstance(a, ast.Assign) and isinstance(
+                a.targets[0], ast.Subscript) and 'self.new_name' in
+            norm(a.value) for a in ast.walk(rd_loops[0]))
+        ok = ok and 'self.new_name.module' in newname and quals_from_new
+        added = any(isinstance(c, ast.Call) and norm(c.func) == 'self.add'
+                    and any(x is b for x in ast.walk(c))
+                    for c in ast.walk(rd_loops[0]))
+        ok = ok and added
     ctx.ob('C04.R5', 'RenameObject._canonicalize:children', ok,
            'owned children are not renamed under the new parent name '
            '(their qualified names would keep the old parent: stale '
